@@ -31,7 +31,15 @@ from ..translate import ipmitool as tr
 ID = 'C19'
 TARGETS = ['PyIpmi.Props.C19', 'drv_c19']
 LEVEL = 'proof'
-RULE = ('shell runs through the real /bin/sh with an argv-printing stub: every printable ASCII character alone, '
+RULE = ('HISTORIES: 2-4 calls (rmcp_ping / is_ipmc_accessible / send_and_receive_raw, with the session\'s credentials, '
+        'auth type, host/port or privilege level changed in place or the session established again in between; failed '
+        'pings; the same Target object used twice) on ONE Ipmitool object, for the 4 interface types x no-auth / plain / '
+        'shell-special credentials, directed (every ordered pair of call kinds, every change between two calls) + seeded; '
+        'every call runs through the real /bin/sh and is judged on its own against the argument vector its settings demand '
+        'and compared with the Lean builder model; 3-6 canned replies (data, rsp= lines, time-outs, connection errors) read '
+        'by one long-lived object, each judged on its own.  Every history is executed in a pristine child process and a '
+        'finding is re-tried as a single call on a new object (signature C19:history:* when only the history shows it).  '
+        'SINGLE CALLS: shell runs through the real /bin/sh with an argv-printing stub: every printable ASCII character alone, '
         'every ordered pair of the 24 shell specials, sampled long and non-ASCII strings, each as user and as '
         'password, over lan/lanplus raw commands and rmcp_ping (thorough: every ordered pair of printable ASCII); '
         'directed + seeded option cases (4 interface types, hosts, ports, 3 levels, ciphers None/0/\'0\'/n, no-auth, '
@@ -45,9 +53,11 @@ ASSUMPTIONS = [
     'ipmitool\'s output format and its use of stderr for error lines are taken from its sources (Spec/IpmitoolPrint.lean), not from a running ipmitool',
     'py3dec_unic_bytes_fix (raw_unicode_escape) is modelled as the identity on code points: generated outputs contain no backslash-u escapes; int(x, 16) is modelled for ASCII input',
     'control flow of the builders / parser is hand-modelled (Model/Ipmitool.lean); string constants are regenerated from the source each run and the shape of every anchored method is checked by AST',
+    'histories: what rmcp_ping / is_ipmc_accessible return is not judged (the property names the command line and the '
+    'reply of a raw request); the canned output a call of a history receives is " 00" / exit status 0 unless the step says otherwise',
     'host, port, serial device and interface options are interpolated unquoted by the code under test; the property quantifies over all strings only for user and password, so hosts/devices are drawn from the host-name / path alphabet',
 ]
-TRUSTED = ['harness/translate/ipmitool.py', 'harness/props/c19.py (argv stub, ipmitool simulator stub, Python twin of Spec.Ipmitool.*Argv)']
+TRUSTED = ['harness/translate/ipmitool.py', 'harness/sim/pristine.py (fork server: histories run in a process that has not used the back-end)', 'harness/props/c19.py (argv stub, ipmitool simulator stub, Python twin of Spec.Ipmitool.*Argv)']
 
 SPECIALS = ['$', '`', '"', '\\', '!', '*', '?', '~', '#', '&', '|', ';', '<', '>', '(', ')', '{', '}', "'",
             ' ', '\t', '\n', '[', '=']
@@ -1015,8 +1025,9 @@ def history_findings(case, res, ctx=None, drv=None, var=None):
             if g['cmd'] is None and own_error is not None and expected is not None:
                 g['raised'] = own_error          # raised before any command was started
         col = _Collect(ctx)
-        judge_shell(col, eff, g, expected, w_d if g['cmd'] is not None else None, m_d if st.get('reply') is None and
-                    st['do'] == 'raw' or g['cmd'] is not None else None, 'history', quiet=(drv is None))
+        have_cmd = g['cmd'] is not None
+        judge_shell(col, eff, g, expected, w_d if have_cmd else None, m_d if have_cmd else None, 'history',
+                    quiet=(drv is None))
         for v in col.violations[:1]:
             found.append((k, v['signature'], v['what'], v['expected'], v['observed']))
         if got.get('commands', 0) > 1:
@@ -1177,6 +1188,9 @@ def run_histories(ctx, var):
     rng = ctx.rng('history')
     ncalls = 0
     for label, case in gen_histories(ctx, rng):
+        if ctx.time_left() < 15:
+            ctx.notes.append('history stream cut short by the time budget')
+            break
         try:
             res = p.call('history', case) if p is not None else exec_history(case)
         except pristine.PristineError as e:
